@@ -82,7 +82,8 @@ SetValClauses(st, ht, tok, r, s, s2) ==
 \* em == [attrs |-> sequence of <<name, code points>> as a standard XML parser reads the output,
 \*        text |-> code points of the element's own text]
 \* complete: the element was given every required child, so only attributes / value can be missing
-ToStringValClauses(ct, st, ht, complete, r, s, s2, em) ==
+\* expect == [attrs |-> <<name, code points>> of every stored *string* value, hasText, text]: what the element holds
+ToStringValClauses(ct, st, ht, complete, r, s, s2, em, expect) ==
   LET missing == RequiredNames(ct) \ NamesOf(s.attrs)
       ante == [
         C04_required |-> complete,
@@ -90,9 +91,15 @@ ToStringValClauses(ct, st, ht, complete, r, s, s2, em) ==
         C05_sound    |-> r.ok,
         C05_notext   |-> r.ok /\ ht \in {"empty", "elements"},
         C16_pure     |-> TRUE,
+        C16_wf       |-> r.ok,
         C19_class    |-> ~r.ok,
         C19_quiet    |-> TRUE ]
   IN [ante |-> ante, holds |-> [
+   \* a standard XML parser recovers exactly the stored strings from the output
+   C16_wf       |-> ante.C16_wf => /\ \A i \in DOMAIN expect.attrs :
+                                          \E j \in DOMAIN em.attrs : em.attrs[j][1] \in {expect.attrs[i][1], "xml:" \o expect.attrs[i][1]}
+                                                                     /\ em.attrs[j][2] = expect.attrs[i][2]
+                                   /\ (expect.hasText => em.text = expect.text),
    C04_required |-> ante.C04_required => (r.ok <=> missing = {}),
    C04_names    |-> ante.C04_names => /\ NamesOf(em.attrs) = NamesOf(s.attrs)
                                       /\ \A n \in NamesOf(em.attrs) : Declared(ct, n),
